@@ -75,4 +75,107 @@ theorem sumBy_set_ne {α} (f : α → Int) (pre post : List α) (x y : α) (h : 
   rw [sumBy_append, sumBy_append, sumBy_cons, sumBy_cons]
   omega
 
+/-! ## a numeric field cut short (C04, truncation inside a record) -/
+
+theorem digitsVal_foldl_lt (s : Str) (hd : s.all isDigit = true) (acc : Nat) :
+    s.foldl (fun a c => a * 10 + digitVal c) acc < (acc + 1) * 10 ^ s.length := by
+  induction s generalizing acc with
+  | nil => simp
+  | cons c t ih =>
+    simp only [List.all_cons, Bool.and_eq_true] at hd
+    have hc : digitVal c ≤ 9 := by
+      have := hd.1
+      unfold isDigit at this
+      unfold digitVal
+      simp only [Bool.and_eq_true, decide_eq_true_eq] at this
+      have h2 : c.toNat ≤ '9'.toNat := this.2
+      have : ('9'.toNat : Nat) = '0'.toNat + 9 := by decide
+      omega
+    have := ih hd.2 (acc * 10 + digitVal c)
+    simp only [List.foldl_cons, List.length_cons, Nat.pow_succ]
+    have hle : (acc * 10 + digitVal c + 1) * 10 ^ t.length ≤ ((acc + 1) * 10) * 10 ^ t.length :=
+      Nat.mul_le_mul_right _ (by omega)
+    have : (acc + 1) * (10 ^ t.length * 10) = ((acc + 1) * 10) * 10 ^ t.length := by
+      rw [Nat.mul_comm (10 ^ t.length) 10, Nat.mul_assoc]
+    omega
+
+theorem digitsVal_lt_pow (s : Str) (hd : s.all isDigit = true) : digitsVal s < 10 ^ s.length := by
+  have := digitsVal_foldl_lt s hd 0
+  simpa [digitsVal] using this
+
+/-- a proper prefix of the digits of a positive number denotes a smaller number -/
+theorem digitsVal_prefix_lt (pre post : Str) (hpost : post ≠ []) (hpos : 0 < digitsVal (pre ++ post)) :
+    digitsVal pre < digitsVal (pre ++ post) := by
+  rw [digitsVal_append] at *
+  have hl : 1 ≤ post.length := by
+    cases post with
+    | nil => exact absurd rfl hpost
+    | cons _ _ => simp
+  have h10 : 10 ≤ 10 ^ post.length := by
+    calc 10 = 10 ^ 1 := by simp
+      _ ≤ 10 ^ post.length := Nat.pow_le_pow_right (by decide) hl
+  have : digitsVal pre * 10 ≤ digitsVal pre * 10 ^ post.length := Nat.mul_le_mul_left _ h10
+  omega
+
+theorem isDigit_bounds (c : Char) (h : isDigit c = true) : 48 ≤ c.val.toNat ∧ c.val.toNat ≤ 57 := by
+  unfold isDigit at h
+  simp only [Bool.and_eq_true, decide_eq_true_eq] at h
+  have h1 : '0'.val ≤ c.val := h.1
+  have h2 : c.val ≤ '9'.val := h.2
+  have e1 : '0'.val.toNat = 48 := by decide
+  have e2 : '9'.val.toNat = 57 := by decide
+  have := UInt32.le_iff_toNat_le.1 h1
+  have := UInt32.le_iff_toNat_le.1 h2
+  omega
+
+theorem digits_no_space (s : Str) (hd : s.all isDigit = true) : ∀ c ∈ s, isSpace c = false := by
+  intro c hc
+  have := isDigit_bounds c (List.all_eq_true.1 hd c hc)
+  unfold isSpace
+  simp only [Bool.or_eq_false_iff, Bool.and_eq_false_iff, decide_eq_false_iff_not]
+  omega
+
+/-- **a numeric field cut short**: if the zero-padded decimal field `ds` denotes a positive number and the text ends
+inside it (after `j` of its columns; the Reader pads the line with blanks), the field parses to a different number -/
+theorem truncated_number_differs (ds : Str) (j : Nat) (hd : ds.all isDigit = true) (hlen : ds.length ≤ 18)
+    (hj : j < ds.length) (hpos : 0 < digitsVal ds) :
+    parseNumField (ds.take j ++ spaces (ds.length - j)) ≠ parseNumField ds := by
+  have hsplit : ds = ds.take j ++ ds.drop j := (List.take_append_drop j ds).symm
+  have hdrop : ds.drop j ≠ [] := by
+    intro h
+    have := congrArg List.length h
+    simp at this
+    omega
+  have hbound : ∀ s : Str, s.all isDigit = true → s.length ≤ 18 → (digitsVal s : Int) ≤ maxInt64 := by
+    intro s hs hl
+    have h1 := digitsVal_lt_pow s hs
+    have h2 : 10 ^ s.length ≤ 10 ^ 18 := Nat.pow_le_pow_right (by decide) hl
+    have : (digitsVal s : Int) < (10 ^ 18 : Nat) := by exact_mod_cast Nat.lt_of_lt_of_le h1 h2
+    unfold maxInt64
+    omega
+  have hne : ds ≠ [] := by intro h; rw [h] at hj; simp at hj
+  have hfull : parseNumField ds = (digitsVal ds : Int) := by
+    unfold parseNumField
+    rw [trimSpace_of_no_space ds (digits_no_space ds hd), atoi_digits ds hne hd (hbound ds hd hlen)]
+    rfl
+  have hdt : (ds.take j).all isDigit = true := by
+    rw [List.all_eq_true] at hd ⊢
+    intro c hc
+    exact hd c (List.mem_of_mem_take hc)
+  have hcut : parseNumField (ds.take j ++ spaces (ds.length - j)) = (digitsVal (ds.take j) : Int) := by
+    unfold parseNumField
+    have htrim : trimSpace (ds.take j ++ spaces (ds.length - j)) = ds.take j := by
+      apply trimSpace_append_spaces
+      unfold Trimmed
+      exact trimSpace_of_no_space _ (digits_no_space _ hdt)
+    rw [htrim]
+    by_cases h0 : ds.take j = []
+    · rw [h0]; simp [atoi, atoiCore, signSplit, digitsVal]
+    · rw [atoi_digits _ h0 hdt (hbound _ hdt (by simp; omega))]
+      rfl
+  rw [hfull, hcut]
+  have := digitsVal_prefix_lt (ds.take j) (ds.drop j) hdrop (by rw [← hsplit]; exact hpos)
+  rw [← hsplit] at this
+  omega
+
 end Ach
